@@ -61,6 +61,7 @@ static int kth_live(int k)
 static void reader_got(const void *data, ssize_t n, const char *what)
 {
 	int i = kth_live(nread);
+	VLOG(R, "   reader: %s -> %zd bytes (expects chunk #%d; read_pt %u write_pt %u)\n", what, n, i, RBR->shared_hdr->read_pt, RBR->shared_hdr->write_pt);
 	if (i < 0) { VFAIL(R, "phantom-chunk", "%s returned a chunk of %zd bytes but every write so far was already consumed (not written at all / returned twice)", what, n); return; }
 	struct attempt *a = &AT[i];
 	if (a->status == ST_INFLIGHT) { inflight_reads++; }
@@ -106,6 +107,7 @@ static void writer_fn(void *arg)
 		}
 		sched_leave_call();
 		if (sched_switches_in_call(0) != s0) sw_w++;
+		VLOG(R, "   writer: #%d %s(%u) -> %zd (write_pt %u -> %u, read_pt %u)\n", idx, w->two_step ? "alloc+commit" : "write", w->len, rc, wp0, RBW->shared_hdr->write_pt, RBW->shared_hdr->read_pt);
 		if (rc == (ssize_t)w->len) {
 			a->status = ST_OK;
 			if (RBW->shared_hdr->write_pt < wp0) wraps++;
